@@ -100,7 +100,11 @@ ENTRIES = [
       [(1,), (2,), (3,)], [(4,)], c15=[ordered("EnvUpper(Sma(c, {0}), 20)", "Sma(c, {0})", "EnvLower(Sma(c, {0}), 20)")]),
     E("trend.Envelope/Ema", [("upper", "EnvUpper(Ema(c, {0}), 20)", 0), ("middle", "Ema(c, {0})", 1), ("lower", "EnvLower(Ema(c, {0}), 20)", 2)],
       [(1,), (2,), (3,)], [(4,)], c15=[ordered("EnvUpper(Ema(c, {0}), 20)", "Ema(c, {0})", "EnvLower(Ema(c, {0}), 20)")]),
+    # WMA periods period/2 and sqrt(period) rounded to the nearest integer; even periods only (the documentation does not say
+    # what period/2 is for an odd period)
     E("trend.Hma", [("hma", "Hma(c, {0}, 2, 2)", 0)], [(4,)], []),
+    E("trend.Hma", [("hma", "Hma(c, {0}, 3, 2)", 0)], [(6,)], []),
+    E("trend.Hma", [("hma", "Hma(c, {0}, 5, 3)", 0)], [], [(10,)]),
     E("trend.Vwma", [("vwma", "Vwma(c, v, {0})", 0)], [(1,), (2,), (3,)], [(4,)]),
     E("trend.Aroon", [("up", "AroonUp(h, {0})", 0, "AroonAsCoded(h, {0}, TRUE)"), ("down", "AroonDown(l, {0})", 1, "AroonAsCoded(l, {0}, FALSE)")], [(2,), (3,), (4,)], [(5,)],
       c15=[rng("up", "AroonUp(h, {0})", 0, 100, 0), rng("down", "AroonDown(l, {0})", 0, 100, 1)]),
